@@ -28,7 +28,8 @@ def scenarios(ctx):
         nonlocal k
         k += 1
         sc = dict(n=3, seed=seed + k, ops=6, opsafter=3, drop=0.0, dup=0.0, delay=0.0, crashnode=0, crashcycle=0,
-                  crashpoint="", crash2=0, restartpeers="all", snapshotat=0, partition=0, follower=False, dropsnap=0)
+                  crashpoint="", crash2=0, restartpeers="all", snapshotat=0, partition=0, follower=False, dropsnap=0,
+                  stepdown="", crashwhen="")
         sc.update(kw)
         out.append(sc)
     # every boundary of the ready cycle x role x a few cycle numbers (RaftHost!CrashPts x Cycle)
@@ -53,6 +54,14 @@ def scenarios(ctx):
         add(snapshotat=7, crashnode=-2, crashcycle=1 + i % 3, crashpoint=["saved", "ready", "advanced"][i % 3], ops=8, opsafter=3, dropsnap=1 + i % 2)
     for i in range(2 if quick else 16):
         add(n=5, crashnode=-1 if i % 2 else -2, crashcycle=2 + i, crashpoint=POINTS[(3 * i) % len(POINTS)], crash2=1 + i % 5, ops=6)
+    # a leader steps down in the middle of the run - by a vote request from a follower that was away, or by
+    # the new leader's delayed first append - and dies inside the very ready cycle in which it stepped down:
+    # what that cycle sends (append response, granted vote) must already be durable
+    for sd in ("vote", "app"):
+        add(stepdown=sd, ops=4, opsafter=2)
+        for j in range(1 if quick else 4):
+            for p in (["send1", "presave", "saved"] if quick else POINTS):
+                add(stepdown=sd, crashnode=-1, crashwhen="stepdown", crashpoint=p, ops=4, opsafter=3)
     add(n=1, ops=4, opsafter=0)
     add(n=3, ops=6, follower=True)
     return out
